@@ -252,7 +252,10 @@ Verdict(oe, os) ==
     THEN << "DISAGREE", "frame", << {v \in 1..NEv : v \notin RecvE(Ev) /\ E'[v] # E[v]},
                                    {v \in 1..NSv : v \notin RecvS(Ev) /\ S'[v] # S[v]} >> >>
   ELSE IF ~Holds(Ev)
-    THEN << "DISAGREE", "result", 0 >>
+    \* for the accessor events the observation itself is the subject: say which observer is off
+    THEN << "DISAGREE", IF Ev.op = "ESetRaw" /\ Ev.obs.E[Ev.r].id # AllZero(Ev.z) THEN "isidentity-observer"
+                        ELSE IF Ev.op = "ERescale" /\ Ev.obs.E[Ev.r].id # E[Ev.r].inf THEN "isidentity-observer"
+                        ELSE "result", 0 >>
   ELSE << "OK", "", 0 >>
 
 RunStep ==
